@@ -115,10 +115,14 @@ def check_program(files: Dict[str, str], refs: List[Tuple[str, List[str], str]],
         if any(o == "import-failed" for o, _ in out):
             return out
         for rpkg, targets, suffix in refs:
-            mod = mt.module(rpkg)
-            Ref = getattr(mod, "Ref" + suffix)
-            Base = getattr(mod, f"RefSvc{suffix}Base")
-            mapping = Base().__mapping__()
+            try:
+                mod = mt.module(rpkg)
+                Ref = getattr(mod, "Ref" + suffix)
+                Base = getattr(mod, f"RefSvc{suffix}Base")
+                mapping = Base().__mapping__()
+            except Exception as e:
+                out.append(("rpc-unresolvable", f"{rpkg!r}: {type(e).__name__}: {e}"[:300]))
+                continue
             for ti, tp in enumerate(targets):
                 tmod = mt.module(tp)
                 Top, Nested = tmod.Top, tmod.TopNested
@@ -254,12 +258,15 @@ def wkt_program(r: str):
     txt = ['syntax = "proto3";']
     if r:
         txt.append(f"package {r};")
-    txt += ['import "google/protobuf/timestamp.proto";', 'import "google/protobuf/empty.proto";',
+    txt += ['import "google/protobuf/timestamp.proto";', 'import "google/protobuf/duration.proto";', 'import "google/protobuf/empty.proto";',
             'import "google/protobuf/struct.proto";', 'import "google/protobuf/wrappers.proto";',
             "message W { google.protobuf.Empty e = 1; google.protobuf.Struct s = 2; repeated google.protobuf.Value vs = 3;",
             "  map<string, google.protobuf.ListValue> ls = 4; google.protobuf.Timestamp t = 5; google.protobuf.Int32Value i = 6;",
             "  oneof o { google.protobuf.Empty oe = 7; } }",
-            "service WSvc { rpc E (google.protobuf.Empty) returns (google.protobuf.Struct); }"]
+            'service WSvc { rpc E (google.protobuf.Empty) returns (google.protobuf.Struct);',
+            '  rpc S (google.protobuf.StringValue) returns (google.protobuf.StringValue);',
+            '  rpc T (google.protobuf.Int32Value) returns (stream google.protobuf.Timestamp);',
+            '  rpc D (stream google.protobuf.Timestamp) returns (google.protobuf.Duration); }']
     return {path_of(r, "w"): "\n".join(txt) + "\n"}
 
 
@@ -278,11 +285,43 @@ def check_wkt(r: str, t: Tally) -> List[Tuple[str, str]]:
             out.append((oracle, f"{where}: {detail}"))
         t.inc("comparisons", mt.compared)
         if not out:
+          try:
             mod = mt.module(r)
             h = mod.WSvcBase().__mapping__()[f"/{r + '.' if r else ''}WSvc/E"]
             t.inc("comparisons", 2)
             if h.request_type is not G.Empty or h.reply_type is not G.Struct:
                 out.append(("rpc-type", f"WKT rpc types {h.request_type!r} {h.reply_type!r}"))
+            mp = mod.WSvcBase().__mapping__()
+            pre = f"/{r + '.' if r else ''}WSvc/"
+            want = {"S": (G.StringValue, G.StringValue), "T": (G.Int32Value, G.Timestamp), "D": (G.Timestamp, G.Duration)}
+            for name, (rq, rp) in want.items():
+                t.inc("comparisons", 2)
+                hh = mp[pre + name]
+                if hh.request_type is not rq or hh.reply_type is not rp:
+                    out.append(("rpc-type", f"WKT rpc {name}: {hh.request_type!r} -> {hh.reply_type!r}, expected {rq.__name__} -> {rp.__name__}"))
+            # and through a real call (the stub names the response class itself)
+            import asyncio
+            from grpclib.testing import ChannelFor
+
+            class Svc(mod.WSvcBase):
+                async def s(self, req):
+                    return G.StringValue(value=req.value + "!")
+
+            async def drive():
+                async with ChannelFor([Svc()]) as ch:
+                    return await mod.WSvcStub(ch).s(G.StringValue(value="hi"))
+
+            loop = asyncio.new_event_loop()
+            try:
+                got = loop.run_until_complete(asyncio.wait_for(drive(), 10))
+                if type(got) is not G.StringValue or got.value != "hi!":
+                    out.append(("rpc-call", f"WKT rpc S returned {got!r}"))
+            except Exception as e:
+                out.append(("rpc-call", f"WKT rpc S: {type(e).__name__}: {e}"[:200]))
+            finally:
+                loop.close()
+          except Exception as e:
+            out.append(("rpc-unresolvable", f"WKT service: {type(e).__name__}: {e}"[:300]))
     finally:
         res.cleanup()
     return out[:3]
